@@ -85,6 +85,14 @@ class Brute:
                 return "the ring of cells around interior edge %d is not closed" % e
             if len(fcs) > 2 and not faces_adjacent(fcs[-1], fcs[0]):
                 return "the ring of faces around interior edge %d is not closed" % e
+        # the two lists are aligned: faces[k] and faces[k+1] bound cells[k] (open fan); faces[k] lies between
+        # cells[k-1] and cells[k] (closed ring)
+        for k in range(n):
+            f0 = self.fs[fcs[k]]
+            f1 = self.fs[fcs[k + 1]] if border else self.fs[fcs[(k + 1) % len(fcs)]]
+            if not (f0 <= self.cs[cells[k]] and f1 <= self.cs[cells[k]]):
+                return "faces %d,%d listed around edge %d do not bound the cell %d listed between them" % (
+                    fcs[k], fcs[k + 1] if border else fcs[(k + 1) % len(fcs)], e, cells[k])
         return None
 
 
@@ -135,7 +143,7 @@ def check_surface(B, V, d, which, all_positive):
     if sorted(map(sorted, cnt)) != sorted(sorted(e) for e in d["edges"]):
         out.append((which + "/edges", "the surface's edge list is not the set of sides of its faces"))
     # outward orientation (exact signed volumes)
-    if which == "bc" or all_positive:
+    if True:
         for f in d["faces"]:
             a, b, c = (b2m[v] for v in f)
             ic = B.cells_of_face[B.fid[frozenset((a, b, c))]][0]
@@ -190,7 +198,7 @@ def check(case, obs):
             if nm == "is_face_on_border_v" and frozenset(a) not in B.fid:
                 pass   # not a face: nothing promised
             else:
-                bad("raised", key="raises/" + nm)
+                bad("raised", key="raises/%s/%s" % (nm, ans[1].split(":")[0]))
             continue
         if ans[0] == "other":
             bad("not an index / list / bool")
